@@ -660,6 +660,7 @@ namespace occa {
             } else {
               --parenthesesCount;
               if (!parenthesesCount) {
+                pp.keepExpandedMacrosAfter(token);
                 delete token;
                 break;
               }
